@@ -202,6 +202,9 @@ def insertion_cases():
         mk('missing-key-list', ["_mk {[1 2] 'b':2}"], CIF_MISSING_KEY, lambda t, c: set_item(t, '_mk', ('table', (('b', u('2')),))))
         mk('null-key', ["_nk {:v 'b':2}"], CIF_NULL_KEY, lambda t, c: set_item(t, '_nk', ('table', (('b', u('2')),))))
         mk('unquoted-key', ["_uk {a:1 'b':2}"], CIF_UNQUOTED_KEY, lambda t, c: set_item(t, '_uk', ('table', (('a', u('1')), ('b', u('2'))))))
+        # the colon ends the white-space delimited token: the value follows after blanks, or as a text field on the next line
+        mk('unquoted-key-then-blank', ["_uk {abc: 1 'b':2}"], CIF_UNQUOTED_KEY, lambda t, c: set_item(t, '_uk', ('table', (('abc', u('1')), ('b', u('2'))))))
+        mk('unquoted-key-then-text-field', ['_uk {abc:', ';txt', ';', '}'], CIF_UNQUOTED_KEY, lambda t, c: set_item(t, '_uk', ('table', (('abc', q('txt')),))))
         mk('text-block-key', ['_tk {', ';key', ';:1 }'], CIF_MISQUOTED_KEY, lambda t, c: set_item(t, '_tk', ('table', (('key', u('1')),))))
         mk('missing-table-value', ["_tv {'a': 'b':2}"], CIF_MISSING_VALUE, lambda t, c: set_item(t, '_tv', ('table', (('a', UNK), ('b', u('2'))))))
         for w in ('stop_', 'global_', 'data_', 'StOp_', 'GLOBAL_', 'DATA_'):
